@@ -75,7 +75,7 @@ thread_local! {
     static HCACHE: RefCell<HashMap<String, (Rc<ClusterState>, String)>> = RefCell::new(HashMap::new());
 }
 
-fn cluster(topo_s: &str, peers: &[PeerSpec], pre_s: &str, pre: &[Strat]) -> Rc<ClusterState> {
+pub(crate) fn cluster(topo_s: &str, peers: &[PeerSpec], pre_s: &str, pre: &[Option<Strat>]) -> Rc<ClusterState> {
     let key = format!("{} {}", topo_s, pre_s);
     CACHE.with(|c| {
         let mut c = c.borrow_mut();
@@ -85,7 +85,7 @@ fn cluster(topo_s: &str, peers: &[PeerSpec], pre_s: &str, pre: &[Strat]) -> Rc<C
         if c.len() >= 24 {
             c.clear();
         }
-        let cs = Rc::new(build_cluster(peers, pre));
+        let cs = Rc::new(build_state_general(None, peers, pre, false));
         c.insert(key, cs.clone());
         cs
     })
@@ -343,21 +343,26 @@ pub fn run(case: &str, ctx: &mut Ctx) -> String {
     if w[0].starts_with('h') {
         return run_history(&w, ctx);
     }
+    if matches!(w[0], "p" | "v" | "s" | "m") {
+        return crate::c04_fetch::run(&w, ctx);
+    }
     if w.len() != 6 || !w[0].starts_with('q') {
         return "bad-case".into();
     }
     let (Some(peers), Some(pre), Some(strat), Ok(tok), Some(dc)) =
-        (parse_topology(w[1]), parse_strategies(w[2]), parse_strategy(w[3]), w[5].parse::<i64>(), parse_dc(w[4]))
+        (parse_topology(w[1]), parse_fetched(w[2]), parse_strategy(w[3]), w[5].parse::<i64>(), parse_dc(w[4]))
     else {
         return "bad-case".into();
     };
     let main = cluster(w[1], &peers, w[2], &pre);
+    // what a cluster built from scratch knows: a keyspace whose fetch failed is absent
     check_state(&main, None, w[1], &peers, w[2], &pre, w[3], &strat, dc, tok, ctx)
 }
 
 /// `h<kind> <n> (<mode> <topology> <strategies>)xn <strategy> <dc|-> <token>`: mode `n` builds the cluster,
 /// `r` = `cluster_refresh` (new topology and keyspaces), `t` = `cluster_refresh_topology` (peers only; strategies
-/// written `=`); `R` / `T` = the same through the host-filter-ACCEPTING hooks (accepted-node arms of the reuse match).  After EVERY step all observations are made on the refreshed state and compared with a cluster
+/// written `=`); `R` / `T` = the same through the host-filter-ACCEPTING hooks (accepted-node arms of the reuse match);
+/// `F` / `G` = the same with a per-peer verdict (peer flag `a` = accepted) and no clearing of the old nodes' enabled-ness.  After EVERY step all observations are made on the refreshed state and compared with a cluster
 /// built from scratch from the same metadata, and with the placement rules.
 fn run_history(w: &[&str], ctx: &mut Ctx) -> String {
     let Some(n) = w.get(1).and_then(|x| x.parse::<usize>().ok()) else { return "bad-case".into() };
@@ -369,8 +374,10 @@ fn run_history(w: &[&str], ctx: &mut Ctx) -> String {
         return "bad-case".into();
     };
     let mut state: Option<Rc<ClusterState>> = None;
-    let mut pre: Vec<Strat> = Vec::new();
+    // the keyspaces as the state must know them: entry i = k<i>, None = absent
+    let mut pre: Vec<Option<Strat>> = Vec::new();
     let mut pre_s = String::new();
+    let mut fetched: Vec<Option<Strat>> = Vec::new();
     let mut key = String::new();
     let mut lines: Vec<String> = Vec::new();
     let mut prev_peers: Vec<PeerSpec> = Vec::new();
@@ -379,12 +386,15 @@ fn run_history(w: &[&str], ctx: &mut Ctx) -> String {
         let Some(peers) = parse_topology(topo_s) else { return "bad-case".into() };
         key = format!("{} {} {} {}", key, mode, topo_s, step_pre);
         match (mode, &state) {
-            ("n", None) | ("r", Some(_)) | ("R", Some(_)) => {
-                let Some(p) = parse_strategies(step_pre) else { return "bad-case".into() };
-                pre = p;
-                pre_s = step_pre.to_owned();
+            ("n", None) | ("r", Some(_)) | ("R", Some(_)) | ("F", Some(_)) => {
+                let Some(f) = parse_fetched(step_pre) else { return "bad-case".into() };
+                // resolve_metadata_keyspaces, read off the property: a keyspace whose fetch failed keeps the
+                // definition the previous state had; without one it is absent
+                pre = f.iter().enumerate().map(|(i, e)| e.clone().or_else(|| pre.get(i).cloned().flatten())).collect();
+                pre_s = fmt_fetched(&pre);
+                fetched = f;
             }
-            ("t", Some(_)) | ("T", Some(_)) if step_pre == "=" => {}
+            ("t", Some(_)) | ("T", Some(_)) | ("G", Some(_)) if step_pre == "=" => {}
             _ => return "bad-case".into(),
         }
         let prev = state.clone();
@@ -402,10 +412,12 @@ fn run_history(w: &[&str], ctx: &mut Ctx) -> String {
                 mark_nodes(p);
             }
             let cs = Rc::new(match (mode, &prev) {
-                ("n", _) => build_cluster(&peers, &pre),
-                ("r", Some(p)) => refresh_cluster(p, &peers, &pre),
-                ("R", Some(p)) => refresh_cluster_accepting(p, &prev_peers, &peers, &pre),
+                ("n", _) => build_state_general(None, &peers, &fetched, false),
+                ("r", Some(p)) => build_state_general(Some((p, &prev_peers)), &peers, &fetched, false),
+                ("R", Some(p)) => build_state_general(Some((p, &prev_peers)), &peers, &fetched, true),
                 ("T", Some(p)) => refresh_cluster_topology_accepting(p, &prev_peers, &peers),
+                ("F", Some(p)) => build_state_filtered(Some((p, &prev_peers)), &peers, &fetched),
+                ("G", Some(p)) => refresh_topology_filtered(p, &prev_peers, &peers),
                 (_, Some(p)) => refresh_cluster_topology(p, &peers),
                 _ => unreachable!(),
             });
@@ -425,13 +437,13 @@ fn run_history(w: &[&str], ctx: &mut Ctx) -> String {
 /// All observations and oracles on one cluster state whose metadata is (`peers`, keyspaces `pre`).
 /// `refreshed`: the state came out of a refresh history; it must then answer like a cluster built from scratch.
 #[allow(clippy::too_many_arguments)]
-fn check_state(
+pub(crate) fn check_state(
     main: &ClusterState,
     refreshed: Option<&str>,
     topo_s: &str,
     peers: &[PeerSpec],
     pre_s: &str,
-    pre: &[Strat],
+    pre: &[Option<Strat>],
     strat_s: &str,
     strat: &Strat,
     dc: Option<u32>,
@@ -505,7 +517,7 @@ fn check_state(
     // ---- precomputed answer = on-the-fly answer ----
     {
         let none = cluster(w[1], &peers, "-", &[]);
-        let only = cluster(w[1], &peers, w[3], std::slice::from_ref(&strat));
+        let only = cluster(w[1], &peers, w[3], &[Some(strat.clone())]);
         let mut others = vec![("a cluster built from scratch with no keyspace precomputed", none), ("a cluster built from scratch with only this strategy precomputed", only)];
         if refreshed.is_some() {
             others.push(("a cluster built from scratch from the same metadata", cluster(w[1], &peers, w[2], &pre)));
@@ -530,9 +542,10 @@ fn check_state(
         }
         ep
     };
-    let ep0 = endpoints("k0", pre.first().unwrap_or(&Strat::Local), ctx);
+    let ks = |i: usize| pre.get(i).cloned().flatten().unwrap_or(Strat::Local);
+    let ep0 = endpoints("k0", &ks(0), ctx);
     let last = pre.len().saturating_sub(1);
-    let epl = endpoints(&format!("k{}", last), pre.last().unwrap_or(&Strat::Local), ctx);
+    let epl = endpoints(&format!("k{}", last), &ks(last), ctx);
     let epu = endpoints("no_such_keyspace", &Strat::Local, ctx);
     // a refreshed state must also report the endpoints of a fresh one (compared through `expected` above)
     for f in local.oracle_failures.drain(..) {
@@ -653,7 +666,12 @@ fn emit_topology(rng: &mut Rng, peers: &[PeerSpec], per_topo: usize, tokens_per:
             4 => vec![gen_strategy(rng, peers), strat.clone(), vary(rng, &strat)],
             _ => (0..rng.range(1, 4)).map(|_| gen_strategy(rng, peers)).collect(),
         };
-        let pre_s = fmt_strategies(&pre);
+        let mut written: Vec<Option<Strat>> = pre.iter().cloned().map(Some).collect();
+        if !written.is_empty() && rng.chance(1, 12) {
+            let k = rng.below(written.len() as u64) as usize;
+            written[k] = None;
+        }
+        let pre_s = fmt_fetched(&written);
         let strat_s = fmt_strategy(&strat);
         for _ in 0..tokens_per {
             let tok = if rng.chance(1, 12) { rng.i64_boundary() } else { *rng.pick(&toks) };
@@ -863,17 +881,36 @@ fn emit_history(rng: &mut Rng, shape: TopoShape, emit: &mut dyn FnMut(String)) {
         for _ in 0..rng.range(1, 2) {
             mutate(rng, &mut peers, shape.max_racks as u32, &mut next_id);
         }
-        let accepting = rng.chance(1, 2);
+        let filter_mode = rng.below(3); // 0 rejecting, 1 accepting, 2 per-peer verdicts
+        let accepting = filter_mode == 1;
+        if filter_mode == 2 {
+            // verdicts per peer; a node is enabled afterwards iff it was accepted (now and then not: a pool-less
+            // accepted node / a still-enabled rejected one)
+            for p in peers.iter_mut() {
+                let acc = rng.chance(1, 2);
+                let en = if rng.chance(1, 8) { !acc } else { acc };
+                p.flags = format!("{}{}", if acc { "a" } else { "" }, if en { "" } else { "d" });
+            }
+        }
         if rng.chance(1, 3) {
-            let m = if accepting { 'T' } else { 't' };
+            let m = if filter_mode == 2 { 'G' } else if accepting { 'T' } else { 't' };
             words.push(format!("{} {} =", m, fmt_topology(&peers)));
             modes.push(m);
         } else {
             if rng.chance(1, 2) {
                 pre = (0..rng.range(0, 3)).map(|_| if rng.chance(1, 2) { rack_sensitive_nts(rng, &peers) } else { gen_strategy(rng, &peers) }).collect();
             }
-            let m = if accepting { 'R' } else { 'r' };
-            words.push(format!("{} {} {}", m, fmt_topology(&peers), fmt_strategies(&pre)));
+            let m = if filter_mode == 2 { 'F' } else if accepting { 'R' } else { 'r' };
+            // the fetch of one keyspace fails now and then: the previous definition must stay in force
+            let mut written: Vec<Option<Strat>> = pre.iter().cloned().map(Some).collect();
+            if !written.is_empty() && rng.chance(1, 3) {
+                let k = rng.below(written.len() as u64) as usize;
+                written[k] = None;
+            }
+            if rng.chance(1, 8) {
+                written.push(None);
+            }
+            words.push(format!("{} {} {}", m, fmt_topology(&peers), fmt_fetched(&written)));
             modes.push(m);
         }
         topologies.push(peers.clone());
@@ -962,7 +999,7 @@ fn kind_word(line: &str) -> String {
 
 pub fn generate(rng: &mut Rng, tier: Tier, emit0: &mut dyn FnMut(String)) {
     let emit: &mut dyn FnMut(String) = &mut |line: String| {
-        if line.starts_with('h') {
+        if !line.starts_with('q') {
             return emit0(line);
         }
         let k = kind_word(&line);
@@ -989,6 +1026,8 @@ pub fn generate(rng: &mut Rng, tier: Tier, emit0: &mut dyn FnMut(String)) {
         exhaustive(3, &PLAIN, true, 4, 1, emit);
         exhaustive(4, &HOLES, false, 3, 7, emit);
     }
+    // metadata rows -> peers -> ring, replication options -> strategy
+    crate::c04_fetch::generate(rng, tier, emit);
     // refresh histories (the locator after a refresh = the locator of a cluster built from scratch)
     exhaustive_histories(if quick { 17 } else { 1 }, emit);
     for i in 0..(if quick { 1500 } else { 30_000 }) {
